@@ -17,6 +17,8 @@ func kindProtos() []*node {
 	return []*node{
 		{k: kNil}, {k: kTru}, nFix(42), nBig(e20), nRat(big.NewInt(3), big.NewInt(4)), nF32(1.5), nF64(1.5), nChr('a'), nStr("abc"), nSym("abc"),
 		nLst(), nLst(nFix(1), nFix(2)), nLst(nFix(1), nTl(nFix(2))), nVec(nFix(1), nFix(2)),
+		// the other numeric kinds: not operands of the predicates, but objects x type symbols like every other kind
+		nOther(kOct, 42), nSB(-5), nUB(5), nOther(kBit, 1), nOther(kLF, 1), nOther(kCpx, 1),
 	}
 }
 
